@@ -128,6 +128,11 @@ def run(ctx):
         if i is not None:
             start = max(k for k in range(i + 1) if recs[k]["op"] == "reset")
             v["detail"] = {"history": recs[start:i + 1]}
+            brief = [[x.get("act") or x["op"], x.get("b"), x.get("c")] + ([x["set"]] if x.get("set") else [])
+                     for x in recs[start + 1:i + 1]]
+            vf.log("violation %s: %s | case %s | last record %s" % (
+                v["contract"], json.dumps(brief), json.dumps({k: recs[start].get(k) for k in ("src", "par", "gitonly", "otheronly", "abandon", "nb")}),
+                json.dumps(recs[i])[:700]))
     n_cases = sum(1 for x in recs if x["op"] == "reset")
     n_replayed = sum(1 for x in recs if x["op"] == "reset" and x["src"] == "tlc")
     if n_replayed != len(behs):
